@@ -1,9 +1,75 @@
 /-
 C01 — A publish reaches exactly the clients whose current subscriptions match it.
-(theorems under construction; see DESIGN.md section 8)
+
+Property theorems only (helper lemmas: `Proofs/BrokerFanout*.lean`).  Model:
+`Model/Broker.lean` (`onPublish`, `fanout`, `deliverConn`) over the topic store
+`Model/Topics.lean` and its finished theorems (`Properties/C06.lean`);
+specification: `Spec/Match.lean` (section 4.7).
 -/
-import Mqtt.Model.Broker
-import Mqtt.Spec.Broker
+import Mqtt.Proofs.BrokerFanoutOut
+
+set_option linter.unusedSimpArgs false
 
 namespace Mqtt.Properties.C01
+open Mqtt.Iface.Broker Mqtt.Model.Broker Mqtt.Proofs.Broker
+
+/-- example state: clients "a" (connection 1) and "b" (connection 2), an
+in-process subscriber 1000 on "a/#" (QoS 1); connection 1 holds "a/+" (QoS 0)
+and "a/b" (QoS 2), connection 2 holds "#" (QoS 1). -/
+def exConnect (c : Nat) (cid : Bytes) : Ev :=
+  .first c (.connect { protoName := [77, 81, 84, 84], version := 4, clean := true, will := none, clientId := cid }) true
+
+def exState : B :=
+  (run {} [exConnect 1 [97], exConnect 2 [98], .srvSub 1000 [97, 47, 35] 1,
+           .packet 1 (.subscribe 1 [([97, 47, 43], 0), ([97, 47, 98], 2)]),
+           .packet 2 (.subscribe 1 [([35], 1)])]).1
+
+/-! ### (d) the fan-out loop over a subscriber list -/
+
+/-- The loop of `onPublish` over the subscriber list `subs`, for a message
+object `m` that carries a packet identifier or needs none (true of every
+decoded inbound PUBLISH) and a non-empty topic, when every connection in the
+list is alive: it emits, in list order, exactly one output per entry
+`(s, eqos)` - to a connection (`s < cbBase`) the PUBLISH with the message's
+topic, payload, DUP bit, QoS `eqos`, the publisher's packet identifier (none at
+QoS 0) and RETAIN = 0; to an in-process callback the message object with QoS
+`eqos` (RETAIN as received, finding E10).  The broker state is unchanged
+(in particular the identifier counter); of the message object only the QoS
+field and `dirty` are different afterwards: RETAIN, cleared for every
+connection, is restored after each delivery. -/
+theorem C01_fanout_char (b : B) (m : Msg) (subs : List (Nat × Nat))
+    (ht : m.p.topic ≠ []) (hid : m.p.pktid ≠ 0 ∨ ∀ sq ∈ subs, sq.2 = 0)
+    (hal : ∀ sq ∈ subs, sq.1 < cbBase → b.alive sq.1 = true) :
+    (fanout b m subs).2.2 = subs.map (fun sq =>
+      if sq.1 < cbBase then
+        Out.send sq.1 (.publish { dup := m.p.dup, qos := sq.2, retain := false, topic := m.p.topic,
+                                  pktid := if sq.2 = 0 then 0 else m.p.pktid, payload := m.p.payload })
+      else Out.call sq.1 { m.p with qos := sq.2 }) ∧
+    (fanout b m subs).1 = b ∧
+    (fanout b m subs).2.1.p = { m.p with qos := subs.foldl (fun _ sq => sq.2) m.p.qos } := by
+  obtain ⟨h1, h2, h3⟩ := fanout_char subs b m ht hid hal
+  exact ⟨h3, h1, h2⟩
+
+/-- the hypothesis on identifiers, for effective QoS values that never exceed the message's -/
+theorem C01_fanout_ids (p : Pub) (subs : List (Nat × Nat)) (hp : p.pktid ≠ 0 ∨ p.qos = 0)
+    (hle : ∀ sq ∈ subs, sq.2 ≤ p.qos) : p.pktid ≠ 0 ∨ ∀ sq ∈ subs, sq.2 = 0 := by
+  rcases hp with h | h
+  · exact Or.inl h
+  · exact Or.inr (fun sq hsq => by have := hle sq hsq; omega)
+
+/-- non-vacuity: a QoS 2 retained message through a list that downgrades to 0,
+goes back to 2, then to 1 (the object becomes dirty on the way) -/
+example :
+    let m : Msg := ⟨{ qos := 2, retain := true, topic := [97, 47, 98], pktid := 5, payload := [1, 2] }, false⟩
+    let subs := [(1, 0), (1, 2), (2, 1), (1000, 1)]
+    (∀ sq ∈ subs, sq.1 < cbBase → exState.alive sq.1 = true) ∧
+    (fanout exState m subs).2.2 =
+      [.send 1 (.publish { qos := 0, retain := false, topic := [97, 47, 98], pktid := 0, payload := [1, 2] }),
+       .send 1 (.publish { qos := 2, retain := false, topic := [97, 47, 98], pktid := 5, payload := [1, 2] }),
+       .send 2 (.publish { qos := 1, retain := false, topic := [97, 47, 98], pktid := 5, payload := [1, 2] }),
+       .call 1000 { qos := 1, retain := true, topic := [97, 47, 98], pktid := 5, payload := [1, 2] }] ∧
+    (fanout exState m subs).2.1 =
+      ⟨{ qos := 1, retain := true, topic := [97, 47, 98], pktid := 5, payload := [1, 2] }, true⟩ := by
+  decide
+
 end Mqtt.Properties.C01
